@@ -305,3 +305,91 @@ Proof.
       destruct (declared_method_facts P s d Hv Hs Hd) as [_ H]. exact H.
 Qed.
 End Full2.
+
+(* ---------- list methods: the client stage accepts them on every schema graph ---------------- *)
+Definition no_err {A} (o : outcome A) : Prop := forall e, o <> Err e.
+
+Lemma fold_obind_no_err {X P} (body : P -> X -> outcome X) ps init :
+  no_err init -> (forall p x, In p ps -> no_err (body p x)) ->
+  no_err (fold_left (fun acc p => obind acc (body p)) ps init).
+Proof.
+  revert init. induction ps as [|p r IH]; intros init Hi Hb; [exact Hi|].
+  cbn [fold_left]. apply IH.
+  - destruct init as [x|c|s|]; cbn [obind].
+    + apply Hb. left. reflexivity.
+    + exact Hi.
+    + intros e; discriminate.
+    + intros e; discriminate.
+  - intros q x Hq. apply Hb. right. exact Hq.
+Qed.
+
+Lemma no_err_omap {A B} (f : A -> B) o : no_err o -> no_err (omap f o).
+Proof. intros H e. destruct o as [a|c|s|]; cbn; try discriminate. intro E. injection E as E. exact (H c eq_refl). Qed.
+
+Lemma direct_ref_succ s p k : In p (schema_props s) -> direct_ref (p_ty p) = Some k -> In k (succs s).
+Proof.
+  intros Hp Hd. unfold succs, prop_refs. apply in_flat_map. exists p. split; [exact Hp|].
+  destruct (p_ty p) as [a|a k'|i|i]; cbn [direct_ref] in Hd; try discriminate.
+  destruct (String.eqb a "object" || String.eqb a "oneof"); [|discriminate].
+  injection Hd as ->. cbn [ref_of]. left. reflexivity.
+Qed.
+
+Lemma walk_fields_no_err g : all_refs_link g = true ->
+  forall f k anc path, present g k -> no_err (walk_fields f g k anc path).
+Proof.
+  intros Hl. induction f as [|f IH]; intros k anc path Hp; [intros e; discriminate|].
+  cbn [walk_fields]. unfold present in Hp. destruct (lookup g k) as [s|] eqn:Ek; [|contradiction].
+  destruct (mem_key k anc); [intros e; discriminate|].
+  apply (fold_obind_no_err (fun p out =>
+     match direct_ref (p_ty p) with
+     | Some k' => omap (fun sub => out ++ (path ++ [p_json p], p_ty p) :: sub)
+                       (walk_fields f g k' (k :: anc) (path ++ [p_json p]))
+     | None => Ok (out ++ [(path ++ [p_json p], p_ty p)])
+     end)); [intros e; discriminate|].
+  intros p out Hin. destruct (direct_ref (p_ty p)) as [k'|] eqn:Ed; [|intros e; discriminate].
+  apply no_err_omap. apply IH. apply (linked_succs g k s Hl Ek). eapply direct_ref_succ; eassumption.
+Qed.
+
+Lemma fine_no_err_ok {A} (o : outcome A) : fine o -> no_err o -> exists v, o = Ok v.
+Proof.
+  intros F N. destruct o as [v|c|s|]; try contradiction; [eauto|]. exfalso. exact (N c eq_refl).
+Qed.
+
+(* the walk of a list request succeeds on every graph whose references link: recursive item objects
+   included (this is what the snapshot's walk without a guard could not do) *)
+Theorem list_walk_total g root : all_refs_link g = true -> present g root ->
+  exists paths, walk_fields (S (length g)) g root [] [] = Ok paths.
+Proof.
+  intros Hl Hp. apply fine_no_err_ok; [apply walk_fields_terminates|apply walk_fields_no_err; assumption].
+Qed.
+
+(* a list method: a QueryRequest among the request properties, one array of object references in
+   the response. The client stage accepts it and attaches the walked paths. *)
+Theorem list_method_total (im : image) sub svc (m : src_method) req resp root :
+  all_refs_link (im_schemas im) = true ->
+  lookup (im_schemas im) (sub_pkg im sub, sm_req m) = Some (SObject req) ->
+  str_eqb (sm_resp m) HTTPBODY_SHORT = false ->
+  lookup (im_schemas im) (sub_pkg im sub, sm_resp m) = Some (SObject resp) ->
+  is_query_request req = true -> list_root (Some resp) = Ok root ->
+  exists paths,
+    walk_fields (S (length (im_schemas im))) (im_schemas im) root [] [] = Ok paths /\
+    method_from_source true im sub svc m =
+    Ok {| cm_service := svc; cm_name := sm_name m; cm_verb := sm_verb m; cm_path := sm_path m;
+          cm_req := fill_request (sm_verb m) (sm_path m) req; cm_resp := Some resp; cm_list := Some paths |}.
+Proof.
+  intros Hl Lreq Hnb Lresp Hq Hroot.
+  assert (Hp : present (im_schemas im) root).
+  { (* the root is the item type of the response's array: a successor of the response schema *)
+    unfold list_root in Hroot. destruct (array_props resp) as [|i [|i2 r]] eqn:Ea; try discriminate.
+    destruct i as [a|a k|i'|i']; try discriminate.
+    destruct (String.eqb a "object") eqn:Eo; [|discriminate]. injection Hroot as <-.
+    apply (linked_succs (im_schemas im) _ (SObject resp) Hl Lresp).
+    unfold succs, prop_refs. cbn [schema_props]. apply in_flat_map.
+    assert (Hin : In (TRef a k) (array_props resp)) by (rewrite Ea; left; reflexivity).
+    unfold array_props in Hin. apply in_flat_map in Hin as [p [Hp Hi]]. exists p. split; [exact Hp|].
+    destruct (p_ty p) as [a0|a0 k0|i0|i0] eqn:Et; try contradiction.
+    destruct Hi as [Hi|[]]. subst i0. cbn [ref_of]. left. reflexivity. }
+  destruct (list_walk_total (im_schemas im) root Hl Hp) as [paths Ew]. exists paths. split; [exact Ew|].
+  unfold method_from_source, object_props. rewrite Lreq. cbn [obind]. rewrite Hnb, Lresp. cbn [obind omap].
+  rewrite Hq, Hroot. cbn [obind]. rewrite Ew. reflexivity.
+Qed.
